@@ -2,6 +2,7 @@ package main
 
 import (
 	"fmt"
+	"sort"
 
 	hg "github.com/mosaicnetworks/babble/src/hashgraph"
 	_state "github.com/mosaicnetworks/babble/src/node/state"
@@ -33,6 +34,7 @@ type ScheduleSpec struct {
 	EmptyProb  float64 // probability that a submission is the empty transaction
 	FFResets   int     // number of times a validator loses its data and fast-syncs back
 	FFSingleServer bool // only one (random) peer answers fast-forward requests
+	PuppetProb float64 // probability that a step is a puppet (Byzantine-content validator) exchange
 }
 
 type shapeState struct {
@@ -226,7 +228,17 @@ func (nw *Network) RunSchedule(sp ScheduleSpec) {
 				o := x.Opts
 				o.FastSync = true
 				cur := clonePeers(x.Core.Peers().Peers)
-				if err := nw.startNode(x, o, cur, clonePeers(nw.Genesis)); err == nil {
+				inPlace := rng.Intn(2) == 0
+				var err error
+				if inPlace {
+					// the running node (e.g. restarted with bootstrap + fast-sync) resets
+					// its existing hashgraph in place
+					x.Node.VerifTransition(_state.CatchingUp)
+					nw.Res.count("ffreset_in_place", 1)
+				} else {
+					err = nw.startNode(x, o, cur, clonePeers(nw.Genesis))
+				}
+				if err == nil {
 					nw.Res.count("ffreset_restarts", 1)
 					if sp.FFSingleServer {
 						others := []*SimNode{}
@@ -278,6 +290,20 @@ func (nw *Network) RunSchedule(sp ScheduleSpec) {
 						nw.Submit(n, nw.NewTx(n.Idx, kind))
 					}
 				}
+			}
+		}
+		// puppet exchange
+		if len(nw.puppets) > 0 && rng.Float64() < sp.PuppetProb {
+			b := nw.babblers()
+			if len(b) > 0 {
+				idxs := []int{}
+				for i := range nw.puppets {
+					idxs = append(idxs, i)
+				}
+				sort.Ints(idxs)
+				p := nw.puppets[idxs[rng.Intn(len(idxs))]]
+				p.Step(b[rng.Intn(len(b))])
+				continue
 			}
 		}
 		// nodes waiting to fast-forward
